@@ -134,9 +134,10 @@ class Site:
 class Bounds:
     """Analyse one function.  contracts: {param: shape tuple}; returns: {fname: shape | 'arg0' | ('tuple', ...)}"""
 
-    def __init__(self, fnode, contracts, returns, np_names=('np', 'numpy'), strict_params=True):
+    def __init__(self, fnode, contracts, returns, np_names=('np', 'numpy'), strict_params=True, callee_contracts=None):
         self.fn = fnode
         self.returns = returns
+        self.callee_contracts = callee_contracts or {}     # kernel name -> (ordered parameter names, {param: contracted shape})
         self.np = set(np_names)
         self.sites = []         # Site
         self.unresolved = []    # (node, why)
@@ -522,6 +523,22 @@ class Bounds:
             if n in ('hstack', 'vstack', 'concatenate'):
                 return None
             return None
+        if name in self.callee_contracts:
+            # a kernel calling a kernel: a constant extent of the argument must be the constant extent the callee indexes within
+            params, contract = self.callee_contracts[name]
+            for pi, a in enumerate(args):
+                if pi >= len(params) or not isinstance(a, Shp):
+                    continue
+                want = contract.get(params[pi])
+                if not want or not isinstance(want, tuple) or len(want) != len(a.ext):
+                    continue
+                for d_, (got, w_) in enumerate(zip(a.ext, want)):
+                    if isinstance(w_, int) and got.is_const():
+                        self.n_slice += 1
+                        ok = got.c >= w_
+                        self.sites.append(Site(e, 'callarg', ok, '' if ok else
+                                               'argument %d of %s has extent %d in dimension %d, but %s indexes it as a %s-element value: it reads %d element(s) past the end'
+                                               % (pi, name, got.c, d_, name, w_, w_ - got.c), ast.unparse(e)[:80]))
         if name in self.returns:
             r = self.returns[name]
             if r == 'arg0':
